@@ -358,7 +358,7 @@ props["C03"] = {
 
 props["C02"] = {
     "level": "model_checking", "validate": 6,
-    "unreached_ok": ["idle-round-keeps-replica-at-source"],
+    "unreached_ok": ["idle-round-keeps-replica-at-source", "restore-from-the-replica-succeeds", "restored-database-equals-source", "upload-acknowledged-means-stored"],
     "runs": [
         run("root", "VxC02Snapshot", {}, {}),
         run("root", "VxC02MaxLTX", {}, {}),
@@ -379,7 +379,7 @@ props["C02"] = {
 
 props["C04"] = {
     "level": "model_checking", "validate": 6,
-    "unreached_ok": ["idle-round-keeps-replica-at-source"],
+    "unreached_ok": ["idle-round-keeps-replica-at-source", "restore-from-the-replica-succeeds", "restored-database-equals-source", "upload-acknowledged-means-stored"],
     "runs": [
         run("root", "VxC04Fresh", {"ROUND2": 0}, {}),
         run("root", "VxC04SameProcess", {"ROUND2": 0}, {}),
